@@ -10,6 +10,29 @@ for l in open(os.path.join(VERIF, "properties.jsonl")):
 
 # id -> (category, technique, text, note, design_ref)
 CLAIMED = {
+    "C15": ("proof",
+            "Lean 4 theorems (mnemonic_to_bytes = BIP39 decoding, mnemonic_from_bytes = BIP39 encoding, both round trips, "
+            "for every 32-byte hash function and every list of 2048 distinct words) + model/implementation correspondence",
+            "Props/C15.lean proves about the model of embit/bip39.py, with SHA-256 any function returning 32 bytes and the "
+            "word list any list of 2048 distinct words: the invariant of the bit-packing loop (the bytearray is the "
+            "left-aligned concatenation of the 11-bit indices, offset = bit count mod 8); mnemonic_to_bytes equals the "
+            "bit-string definition of BIP39 on every word sequence (so a phrase of 12..24 words is accepted exactly when its "
+            "length is a multiple of three, every word is in the list and the checksum bits equal the leading bits of the hash "
+            "of the entropy - both directions, every checksum bit); mnemonic_from_bytes equals ENT||checksum cut into 11-bit "
+            "groups; entropy->mnemonic->entropy is the identity for 16/20/24/28/32 bytes and mnemonic->entropy->mnemonic on "
+            "everything accepted; a different phrase with the same entropy bits is refused; the seed is "
+            "PBKDF2(phrase, 'mnemonic'+passphrase, 2048, 64) (definitional on the model, PBKDF2 a parameter). The model is tied to "
+            "/repo each run by running embit and the native Lean driver on the same phrases/entropies/seeds (English list, "
+            "the tests' Spanish list, a permuted list), by checking on the lists actually used the facts the theorems assume "
+            "(2048 entries, distinct, no white space, NFKD), and by evaluating the property directly on embit against an "
+            "independent hashlib statement of BIP39; the executable PBKDF2-HMAC-SHA512/SHA-256 of the driver are compared with "
+            "hashlib. Behaviour outside the property's domain (more than 24 words accepted under the extended rule, entropies of "
+            "0..12 and 36..1024 bytes encoded) is modelled and stated as theorems, not reported.",
+            "Trusted: Lean kernel + propext/Quot.sound/Classical.choice; the Python harness; CPython/hashlib; str.split and "
+            "UTF-8 encoding are modelled (words after split, bytes as given). NFKD normalisation is the caller's business: embit "
+            "does none, inputs are generated in NFKD. The seed sentence is definitional on the model; that the PBKDF2 used is the "
+            "standard one rests on the correspondence with hashlib and the published vectors, not on a theorem.",
+            "§5 C15"),
     "C01": ("proof",
             "Lean 4 theorems (model digest = consensus digest for all tx/index/flag/hash function) + correspondence on 3 entry points",
             "Props/C01.lean proves for every transaction, input index, script code, amount and every SHA-256 replacement that the "
